@@ -4,6 +4,7 @@ import (
 	"fmt"
 	"go/ast"
 	"go/parser"
+	"go/printer"
 	"go/token"
 	"os"
 	"path/filepath"
@@ -23,6 +24,7 @@ func extractAll(repo string) string {
 	sb.WriteString(persisterSections(repo))
 	sb.WriteString(singleSections(repo))
 	sb.WriteString(moreSections(repo))
+	sb.WriteString(batchEffects(repo))
 	sb.WriteString(lockOrder(repo))
 	return sb.String()
 }
@@ -222,7 +224,9 @@ func batchReadsAtomic(fd *ast.FuncDecl) bool {
 		return false
 	}
 	b := fd.Body
-	iLock := topIndex(b, 0, func(s ast.Stmt) bool { return isCall(s, "s", "mutBatch", "RLock") || isCall(s, "s", "mutBatch", "Lock") })
+	iLock := topIndex(b, 0, func(s ast.Stmt) bool {
+		return isCall(s, "s", "mutBatch", "RLock") || isCall(s, "s", "mutBatch", "Lock")
+	})
 	if iLock < 0 {
 		return false
 	}
@@ -240,7 +244,9 @@ func batchReadsAtomic(fd *ast.FuncDecl) bool {
 	if iGet < 0 {
 		return false
 	}
-	iUn := topIndex(b, iLock+1, func(s ast.Stmt) bool { return isCall(s, "s", "mutBatch", "RUnlock") || isCall(s, "s", "mutBatch", "Unlock") })
+	iUn := topIndex(b, iLock+1, func(s ast.Stmt) bool {
+		return isCall(s, "s", "mutBatch", "RUnlock") || isCall(s, "s", "mutBatch", "Unlock")
+	})
 	deferred := topIndex(b, iLock+1, func(s ast.Stmt) bool {
 		return isCall(s, "defer", "s", "mutBatch", "RUnlock") || isCall(s, "defer", "s", "mutBatch", "Unlock")
 	})
@@ -465,7 +471,9 @@ func addTxIndexUpdatesAtomic(fd *ast.FuncDecl) bool {
 		return false
 	}
 	// no index update before the lock is taken
-	if topIndex(b, 0, func(s ast.Stmt) bool { return containsCall(s, "txByHash", "addTx") || containsCall(s, "txListBySender", "addTxReturnEvicted") }) < iLock {
+	if topIndex(b, 0, func(s ast.Stmt) bool {
+		return containsCall(s, "txByHash", "addTx") || containsCall(s, "txListBySender", "addTxReturnEvicted")
+	}) < iLock {
 		return false
 	}
 	if deferred >= 0 && deferred < iHash && deferred < iList && iUn < 0 {
@@ -550,6 +558,70 @@ func countersPaired(fd *ast.FuncDecl, mapOp string, counterOps []string, lookups
 		total += len(callsNamed(st, counterOps...))
 	}
 	return total > 0
+}
+
+// batchEffects: the top-level effects of leveldb's batch.Put / batch.Delete / batch.Reset, canonicalised and sorted. Lock/unlock
+// calls, `return nil` and the nil→empty normalisation of Put are skipped; anything else (a condition, an early return, a
+// copy, another call) appears as "other: <source>" and breaks the comparison with the model's effects.
+func batchEffects(repo string) string {
+	p := parsePkg(filepath.Join(repo, "leveldb"))
+	src := func(n ast.Node) string {
+		var sb strings.Builder
+		_ = printer.Fprint(&sb, p.fset, n)
+		return strings.Join(strings.Fields(sb.String()), " ")
+	}
+	canon := func(st ast.Stmt) string {
+		t := src(st)
+		switch {
+		case strings.HasSuffix(t, "mutBatch.Lock()"), strings.HasSuffix(t, "mutBatch.Unlock()"), t == "return nil", t == "defer b.mutBatch.Unlock()":
+			return ""
+		case t == "b.batch.Put(key, val)":
+			return "ldb.put"
+		case t == "b.batch.Delete(key)":
+			return "ldb.del"
+		case t == "b.batch.Reset()":
+			return "ldb.reset"
+		case t == "b.cachedData[string(key)] = val":
+			return "cached.set"
+		case t == "delete(b.cachedData, string(key))":
+			return "cached.del"
+		case t == "b.removedData[string(key)] = struct{}{}":
+			return "removed.set"
+		case t == "delete(b.removedData, string(key))":
+			return "removed.del"
+		case t == "b.cachedData = make(map[string][]byte)":
+			return "cached.clear"
+		case t == "b.removedData = make(map[string]struct{})":
+			return "removed.clear"
+		}
+		if is, ok := st.(*ast.IfStmt); ok && src(is.Cond) == "val == nil" && len(is.Body.List) == 1 && is.Else == nil &&
+			(src(is.Body.List[0]) == "val = make([]byte, 0)" || src(is.Body.List[0]) == "val = []byte{}") {
+			return "" // nil is held as an empty non-nil value (F8)
+		}
+		return "other: " + t
+	}
+	var sb strings.Builder
+	for _, fn := range []string{"Put", "Delete", "Reset"} {
+		fd := p.funcs["batch."+fn]
+		var eff []string
+		if fd == nil {
+			eff = []string{"absent"}
+		} else {
+			for _, st := range fd.Body.List {
+				if c := canon(st); c != "" {
+					eff = append(eff, c)
+				}
+			}
+		}
+		sort.Strings(eff)
+		q := make([]string, len(eff))
+		for i, e := range eff {
+			q[i] = fmt.Sprintf("%q", e)
+		}
+		fmt.Fprintf(&sb, "/-- effects of `batch.%s` in leveldb/batch.go (sorted) -/\ndef batch%sEffects : List String := [%s]\n", fn, fn, strings.Join(q, ", "))
+	}
+	sb.WriteString("\n")
+	return sb.String()
 }
 
 func moreSections(repo string) string {
